@@ -265,6 +265,10 @@ func (c *kindCfg) comparePair(run *core.Run, name, op string, a, b proto.Message
 		run.Count("inj_digest_pairs_compared", 1)
 		run.Count("inj_pairs_"+c.kind, 1)
 		run.Distinct(fmt.Sprintf("inj/%s/%s/%s/%s/%s", c.kind, class, d.name, field, op))
+		if strings.HasSuffix(name, "/0") && op != "one-field" && len(obs) < 3 {
+			run.Sample(map[string]any{"monitor": "digest-injectivity", "case": name, "kind": c.kind, "class": class, "fn": d.name, "op": op, "changed": changed,
+				"digest_a": core.Hex(da), "digest_b": core.Hex(db)})
+		}
 		if bytes.Equal(da, db) {
 			viol(run, fmt.Sprintf("digest-collision kind=%s field=%s class=%s fn=%s op=%s", c.kind, field, class, d.name, op), name,
 				map[string]any{"a_hex": fmt.Sprintf("%x", mb(a)), "b_hex": fmt.Sprintf("%x", mb(b)), "changed": changed, "digest_hex": core.Hex(da),
@@ -502,6 +506,16 @@ func TestCheck(t *testing.T) {
 	stage("unknown-fields", func() { unknownFields(run) })
 	wg.Wait()
 	run.Extra("stage_seconds", stages) // informational only; no verdict depends on it
+	if os.Getenv("VERIF_CASE") == "" {
+		// every monitor must have looked at something, otherwise silence proves nothing
+		for _, k := range []string{"inj_digest_pairs_compared", "inj_pairs_tx", "inj_pairs_vote", "inj_pairs_qc", "inj_pairs_evidence", "keys_built", "prefix_range_checks",
+			"store_gets_compared", "store_iterations_compared", "indexer_queries_compared", "unknown_injections", "unknown_rejected", "oversize_cases",
+			"dec_inputs_executed", "dec_decoded_ok", "dec_decode_rejected", "dec_checktx_accepted", "dec_bft_messages_accepted", "dec_qc_passed_check"} {
+			if run.Counter(k) == 0 {
+				run.Inconclusive("monitor counter %s is zero", k)
+			}
+		}
+	}
 }
 
 // topSegs keeps the first n dotted segments of a path.
